@@ -120,9 +120,9 @@ CLAIMED = {
  "C05": dict(
    engine="P",
    technique="proxy-value symbolic execution of Network.__init__ / adjacency.setter / set_edge_list / FromIGraph / copy / save / Load with symbolic edge end points (forked per feasible value by the solver), symbolic adjacency bits, node weights and link attributes; igraph.Graph and its file formats are environment stubs with stated contracts; every observed quantity is compared with the reference by a z3 query; sat models replayed on real Network objects and real files",
-   text="Bounded model checking: for every listing of a simple graph within the bound (each link once, or both directions for undirected networks; no links at all included), every adjacency matrix (dense and sparse) and every igraph-like object, the constructed network, its copy and the network loaded back from graphml/graphmlz/pickle/gml have the node count, link count, link density, 0/1 symmetric loop-free adjacency, embedded graph, node weights with total and mean, and link attributes of the input.",
-   note="Bounds: n<=3 (4 thorough), up to 3 listed edges, directed and undirected. The igraph C library and the bytes written to disk are replaced by a stub (contract: graphml/graphmlz/pickle keep all attributes; GML keys lose non-alphanumeric characters); SpatialNetwork/GeoNetwork/ClimateNetwork save/Load and N=1 are outside.",
-   ref="DESIGN.md §3 C05"),
+   text="Bounded model checking: for every listing of a simple graph within the bound (each link once, or both directions for undirected networks; no links at all included), every adjacency matrix (dense and sparse) and every igraph-like object, the constructed network, its copy and the network (Network, SpatialNetwork, GeoNetwork) loaded back from graphml/graphmlz/pickle/gml have the node count, link count, link density, 0/1 symmetric loop-free adjacency, embedded graph, node weights with total and mean, and link attributes of the input.",
+   note="Bounds: n<=3 (4 thorough), up to 3 listed edges, directed and undirected. The igraph C library and the bytes written to disk are replaced by a stub (contract: graphml/graphmlz/pickle keep all attributes; GML keys lose non-alphanumeric characters); SpatialNetwork/GeoNetwork save/Load are included with the grid file as an identity stub; ClimateNetwork save/Load and N=1 are outside.",
+   ref="DESIGN.md §8.5 C05"),
 }
 NA_DEFAULT = "check not built yet in this round (see DESIGN.md §6 for the planned obligation)"
 def main():
